@@ -13,6 +13,7 @@ rep("""    pub fn alloc_inner(&mut self, order: u8) -> (r: Option<u32>)
             r matches Some(p) ==> old(self).st().cov(order as int, p as int) && !final(self).st().cov(order as int, p as int),
             r matches Some(p) ==> forall|k: int, y: int| 0 <= k <= order ==> #[trigger] final(self).st().cov(k, y)
                     == (old(self).st().cov(k, y) && !is_anc(k, y, order as int, p as int)),
+            r matches Some(p) ==> forall|j: int, y: int| #[trigger] final(self).st().a(j, y) ==> old(self).st().cov(j, y),
             r is None ==> forall|k: int, q: int| order <= k ==> !#[trigger] old(self).st().a(k, q),""")
 rep("""        if let Some(x) = allocator.alloc() {
             Some(x)""","""        if let Some(x) = allocator.alloc() {
